@@ -35,3 +35,23 @@ Qed.
 Theorem C04_set_data_not_inplace :
   forall x d n, set_data_new false x d n = set_data_inplace (snd (copy x MCopy n)) d.
 Proof. reflexivity. Qed.
+
+(* ---- second pass: seeded variants ------------------------------------------------ *)
+
+(* Field.set_data with the data-axes assignment hoisted above the copy
+   ("validate before the expensive copy"): inplace=False changes the receiver. *)
+Theorem C04_hoisted_set_data_axes_refuted :
+  exists x data axes n, below n x /\
+    path_copied MCopy [C; "'constructs'"] x = true /\ path_copied MCopy [C] x = true /\
+    erase (fst (field_set_data true x data axes n)) <> erase x.
+Proof. exact field_set_data_hoisted_changes_receiver. Qed.
+
+(* Constructs.copy carrying the filter history over with shallow_copy(): a
+   write to a construct reached through the copy's history changes the source
+   (and does not under the real recipe). *)
+Theorem C04_shallow_filter_history_refuted :
+  exists x n w, below n x /\
+    resolve (snd (copy x MCopyPV n)) w <> [] /\
+    erase (apply_all (resolve (snd (copy x MCopyPV n)) w) x) <> erase x /\
+    apply_all (resolve (snd (copy x MCopy n)) w) x = x.
+Proof. exact history_shared_if_shallow. Qed.
